@@ -52,8 +52,52 @@ pub fn run_memread(world: &World, ops: &[MemReadOp]) -> Vec<MemReadOutcome> {
     }
     out
 }
-pub fn run_elfid(_world: &World, _p: &ElfIdPlan) -> ElfOutcome {
-    ElfOutcome::default()
+pub fn run_elfid(world: &World, p: &ElfIdPlan) -> ElfOutcome {
+    use minidump_writer::module_reader::{BuildId, ProcessReader, ReadFromModule, SoName};
+    use std::os::unix::ffi::OsStrExt;
+    let mut out = ElfOutcome::default();
+    let pid = world.pid;
+    let base = p.base as usize;
+    let mut guard = |f: &mut dyn FnMut(&mut ElfOutcome)| {
+        if let Ok(mut g) = LAST_PANIC.lock() {
+            *g = None;
+        }
+        let mut tmp = ElfOutcome::default();
+        let r = catch_unwind(AssertUnwindSafe(|| f(&mut tmp)));
+        if r.is_err() {
+            out.panics.push(LAST_PANIC.lock().ok().and_then(|g| g.clone()).unwrap_or_default());
+        }
+        if tmp.mem_build_id.is_some() {
+            out.mem_build_id = tmp.mem_build_id;
+        }
+        if tmp.mem_soname.is_some() {
+            out.mem_soname = tmp.mem_soname;
+        }
+        if tmp.file_build_id.is_some() {
+            out.file_build_id = tmp.file_build_id;
+        }
+        if tmp.file_soname.is_some() {
+            out.file_soname = tmp.file_soname;
+        }
+    };
+    if p.base != 0 {
+        guard(&mut |o| {
+            o.mem_build_id = Some(BuildId::read_from_module(ProcessReader::new(pid, base).into()).map(|b| b.0).map_err(|e| format!("{:?}", e)));
+        });
+        guard(&mut |o| {
+            o.mem_soname = Some(SoName::read_from_module(ProcessReader::new(pid, base).into()).map(|b| b.0).map_err(|e| format!("{:?}", e)));
+        });
+    }
+    if !p.path.0.is_empty() {
+        let path = std::path::PathBuf::from(std::ffi::OsStr::from_bytes(&p.path.0));
+        guard(&mut |o| {
+            o.file_build_id = Some(BuildId::read_from_file(&path).map(|b| b.0).map_err(|e| format!("{:?}", e)));
+        });
+        guard(&mut |o| {
+            o.file_soname = Some(SoName::read_from_file(&path).map(|b| b.0).map_err(|e| format!("{:?}", e)));
+        });
+    }
+    out
 }
 
 pub fn dir_header(seed: u64) -> Vec<u8> {
